@@ -128,6 +128,20 @@ def m_from_generic(c, x):
         return Ptr(Cell(x, 'box'), ())
     if a.startswith('Option<'):
         return some(ip, x)
+    if (a.startswith('BTreeMap<') or a.startswith('HashMap<')) and b.startswith('['):
+        from .collections_ import map_insert
+        m = MapV(a.split('<')[0].lower())
+        for kv in items(ip, x):
+            map_insert(ip, m, kv.fields[0], kv.fields[1])
+        return m
+    if (a.startswith('BTreeSet<') or a.startswith('HashSet<')) and b.startswith('['):
+        from .collections_ import map_insert
+        m = MapV(a.split('<')[0].lower())
+        for k in items(ip, x):
+            map_insert(ip, m, k, unit())
+        return m
+    if a.startswith('Vec<') and b.startswith('['):
+        return Seq(list(items(ip, x)), 'vec')
     raise Inconclusive("From conversion %s <- %s" % (a, b))
 
 
